@@ -59,7 +59,7 @@ MANIFEST = dict(
 )
 FLOORS = {"C02.1": 1, "C02.2": 8, "C02.3": 5, "C02.4": 3, "C02.5": 5,
           "C02.6": 14, "C02.7": 30, "C02.8": 20,
-          "C02.9": 12, "C02.10": 4, "C02.11": 30}
+          "C02.9": 12, "C02.10": 4, "C02.11": 30, "C02.12": 6}
 
 RPE = "evo.core.metrics.RPE"
 IDP = "evo.core.metrics.id_pairs_from_delta"
@@ -242,6 +242,19 @@ def check(ctx):
     ctx.section(_helpers, ctx, "C02.10")
     from .c01 import _alignment
     ctx.section(_alignment, ctx, "C02.11")
+    ctx.section(_reduction, ctx, "C02.12")
+
+
+def _reduction(ctx, rule: str):
+    """'evo_rpe stores these values for the pairs chosen on the processed
+    trajectories' and 'the reported pair end indices are co-indexed with the
+    values': association, filtering and the final restriction to the pair
+    ends all go through reduce_to_ids, which must select every view by the
+    given ids on every path — also for id lists that repeat poses or have as
+    many entries as there are poses (instances of C08.3)"""
+    from ..core import import_rules
+    n = import_rules(ctx, "c08", ("C08.3",), rule)
+    ctx.require(n >= 6, f"{rule}: reduce_to_ids instances not found")
 
 
 def coindexing(ctx, res, member, err, dids, IDPAIRS, rule):
